@@ -45,10 +45,11 @@ class C16(Check):
         reader = None
         inline = None
         for n in ast.walk(bm):
-            if isinstance(n, ast.Assign) and isinstance(n.value, ast.Call) and isinstance(n.value.func, ast.Name) \
-                    and n.value.func.id in lin.functions and len(n.value.args) == 2 and norm(n.value.args[1]) == "label_map" \
-                    and isinstance(n.targets[0], ast.Name):
-                f = lin.functions[n.value.func.id]
+            # any call of a module function with (positions, label_map), wherever its result goes
+            if isinstance(n, ast.Call) and isinstance(n.func, ast.Name) and n.func.id in lin.functions and len(n.args) == 2 and norm(n.args[1]) == "label_map" and not n.keywords:
+                f = lin.functions[n.func.id]
+                if len(f.args.args) < 2:
+                    continue
                 cls_, _ = classify_reader(f, f.args.args[1].arg, f.args.args[0].arg)
                 if cls_ != "none":
                     reader = (f, n)
